@@ -23,7 +23,6 @@ import (
 	"strings"
 	"sync"
 	"time"
-	"unicode/utf8"
 
 	"github.com/robfig/soy/data"
 
@@ -293,19 +292,12 @@ func Judge(m ModeRow, row *ChainRow, v *Value, o Obs) (sig core.Sig, what string
 			return core.Sig{Family: "autoescape", Feature: "site=" + m.Site + ",raw-special," + kind},
 				"escaping is on and no directive cancels it, yet a special character is written raw"
 		}
-		// independent of any expected text: the text node decodes to the value
-		// (through the truncate contract if the chain truncates)
+		// independent of any expected text: the text node decodes to the value;
+		// with a truncate in the chain it decodes to what the chain writes with
+		// escaping off (whether THAT is a correct truncation is C16's question)
 		fault := ""
-		switch {
-		case len(row.Chain) == 0 || onlyTransparent(row.Chain):
-			if !c16.SameText(dec, v.Text) {
-				fault = "decodes-wrong"
-			}
-		case len(row.Chain) == 1 && utf8.ValidString(v.Text):
-			d := row.Chain[0]
-			if f := c16.TruncateFault(v.Text, d.ArgN(0), d.Ellipsis(), dec); f != "" {
-				fault = "decodes-wrong,truncate-" + f
-			}
+		if (len(row.Chain) == 0 || onlyTransparent(row.Chain)) && !c16.SameText(dec, v.Text) {
+			fault = "decodes-wrong"
 		}
 		// and it is the escaped form of what the chain produces with escaping off
 		if fault == "" && !c16.SameText(dec, o.Off) {
@@ -593,7 +585,7 @@ func Grid(ctx *core.Ctx, real *c16.Real, t *Tables, vals []Value, off, y [][]str
 					// the exported reference texts (only where they are pinned)
 					if v.ExpIdx >= 0 && m.Depth == 1 && (m.Site == "direct" || m.Site == "call") {
 						cs := row.Cases[v.ExpIdx]
-						if cs.Det && cs.Kind != "contract" {
+						if cs.Det && cs.Kind != "contract" && !strings.Contains(row.Text, "|truncate") {
 							want := cs.Off
 							if m.On {
 								want = cs.On
